@@ -38,7 +38,13 @@ RULE = (
     "include/render/extends names against a recording loader, with, macro/call, "
     "translate), names given as strings (macro, block, cycle group, increment, alias), "
     "template-string text parts and literals inside ${...}, {% liquid %} line statements, "
-    "ternaries, array literals, lambdas, strings given to for limit:/offset: "
+    "ternaries (branches, tails), array literals, lambdas, every positional (1st/2nd/3rd) and "
+    "keyword slot of a test filter `cat`, 2nd slots of with/include/render/call/macro/"
+    "translate/cycle/when, for and tablerow iterables, capture; every third evaluation at a "
+    "site is repeated with the literal turned into a template string (`${x}` at the start / "
+    "middle / end of the body, both quote styles): it must denote the string with X inserted, "
+    "and where it is refused (names and aliases take plain strings only) both quote styles "
+    "must be refused alike; strings given to for limit:/offset: "
     "(every spelling must behave like the minimal spelling), and a few of them again under auto_escape=True "
     "(decided by comparison / lookup).  Every 7th evaluation renders through render_async.  "
     "A failing case is delta-debugged over its characters; the mechanism key is "
@@ -296,6 +302,12 @@ class Site:
         self.nonempty = nonempty  # an empty name means "no name given" at this site
         self.ae = ae  # rendered by an Environment(auto_escape=True)
         self.check = check
+        # may the planted literal be turned into a template string (`${x}` inserted)?
+        # not in quoted path segments (no interpolation there) and not at the sites that
+        # already build their own template string around the body
+        self.tstring = (probe != "mapping" and not name.startswith("path-")
+                        and "«B»" not in src
+                        and not any("«B»" in v for v in (partials or {}).values()))
 
 
 def _w(s: str) -> str:
@@ -402,6 +414,47 @@ STRING_SITES: list[Site] = [
     Site("array-literal", "<<{{ 'zz', «L» | last }}>>", _w),
     Site("lambda-eq", "<<{{ arr | where: i => i == «L» | first }}>>", _w,
          data=lambda s: {"arr": ["zz~", s]}),
+    Site("filter-arg-3rd", "<<{{ '' | cat: 'p', 'q', «L» }}>>", lambda s: _w("pq" + s)),
+    Site("filter-arg-1st-of-3", "<<{{ '' | cat: «L», 'p', 'q' }}>>", lambda s: _w(s + "pq")),
+    Site("filter-arg-2nd-of-3", "<<{{ '' | cat: 'p', «L», 'q' }}>>", lambda s: _w("p" + s + "q")),
+    Site("filter-kwarg-after-positional", "<<{{ '' | cat: 'p', k: «L» }}>>",
+         lambda s: _w("p[k=" + s + "]")),
+    Site("filter-kwarg-2nd", "<<{{ '' | cat: j: 'p', k: «L» }}>>",
+         lambda s: _w("[j=p][k=" + s + "]")),
+    Site("filter-arg-chained", "<<{{ '' | append: «L» | append: '!' | upcase | downcase }}>>",
+         lambda s: _w((s + "!").upper().lower())),
+    Site("filter-arg-2nd-filter", "<<{{ 'a' | append: 'b' | cat: «L» }}>>", lambda s: _w("ab" + s)),
+    Site("ternary-branch-filter", "<<{{ 'a' | cat: «L» if true else 'zz' }}>>",
+         lambda s: _w("a" + s)),
+    Site("ternary-else-filter", "<<{{ 'zz' if false else 'a' | cat: «L» }}>>",
+         lambda s: _w("a" + s)),
+    Site("ternary-tail-filter", "<<{{ 'a' if true else 'b' || cat: «L», 'q' }}>>",
+         lambda s: _w("a" + s + "q")),
+    Site("ternary-tail-filter-kwarg", "<<{{ 'a' if true else 'b' || cat: k=«L» }}>>",
+         lambda s: _w("a[k=" + s + "]")),
+    Site("lambda-two-params", "<<{{ arr | where: (i, n) => i == «L» | first }}>>", _w,
+         data=lambda s: {"arr": ["zz~", s]}),
+    Site("assign-array", "{% assign v = 'zz', «L» %}<<{{ v | last }}>>", _w),
+    Site("for-in-array-first", "{% for i in «L», 'zz' %}<<{{ i }}>>{% endfor %}",
+         lambda s: _w(s) + _w("zz")),
+    Site("tablerow-in-array", "{% tablerow i in 'zz', «L» %}<<{{ i }}>>{% endtablerow %}",
+         lambda s: "", check=lambda out, s: (_w(s) in out and _w("zz") in out, out)),
+    # one tag instance rendered twice (two separate tags would test cycle-group identity)
+    Site("cycle-2nd", "{% for i in (1..2) %}<<{% cycle 'zz', «L» %}>>{% endfor %}",
+         lambda s: _w("zz") + _w(s)),
+    Site("case-when-first", "{% case v %}{% when «L», 'zz' %}T{% else %}F{% endcase %}", _T,
+         data=lambda s: {"v": s}),
+    Site("with-2nd", "{% with a: 'zz', x: «L» %}<<{{ x }}>>{% endwith %}", _w),
+    Site("include-arg-2nd", "{% include 'p', a: 'zz', x: «L» %}", _w, partials={"p": "<<{{ x }}>>"}),
+    Site("render-arg-2nd", "{% render 'p', a: 'zz', x: «L» %}", _w, partials={"p": "<<{{ x }}>>"}),
+    Site("call-arg-2nd", "{% macro m a, b %}<<{{ b }}>>{% endmacro %}{% call m 'zz', «L» %}", _w),
+    Site("macro-default-2nd", "{% macro m a: 'zz', b: «L» %}<<{{ b }}>>{% endmacro %}{% call m %}",
+         _w),
+    Site("translate-arg-2nd", "{% translate a: 'zz', x: «L» %}<<{{ x }}>>{% endtranslate %}", _w),
+    Site("echo-filter-arg", "<<{% echo '' | append: «L» %}>>", _w),
+    Site("liquid-echo-filter-arg", "<<{% liquid echo 'a' | cat: 'p', «L» %}>>",
+         lambda s: _w("ap" + s), liquid=True),
+    Site("capture-output", "{% capture c %}{{ «L» }}{% endcapture %}<<{{ c }}>>", _w),
     Site("filter-kwarg-eq", "<<{{ '%(x)s' | t: x=«L» }}>>", _w),
     Site("case-when-or", "{% case v %}{% when 'zz' or «L» %}T{% else %}F{% endcase %}", _T,
          data=lambda s: {"v": s}),
@@ -483,7 +536,19 @@ class Harness:
         self.tpls: dict[str, str] = {}
         self.env = Environment(loader=RecLoader(self.tpls))
         self.env_ae = Environment(loader=RecLoader(self.tpls), auto_escape=True)
+
+        def cat(left: object, *args: object, **kwargs: object) -> str:
+            """Test filter: shows every positional and keyword argument it received."""
+            return (str(left) + "".join(str(a) for a in args)
+                    + "".join(f"[{k}={v}]" for k, v in kwargs.items()))
+
+        from liquid2.shopify.tags.tablerow_tag import TablerowTag
+
+        for e in (self.env, self.env_ae):
+            e.filters["cat"] = cat
+            e.tags["tablerow"] = TablerowTag(e)
         self.n = 0
+        self.site_n: dict[str, int] = {}
         self.explained: dict[tuple[str, str], list[tuple[frozenset[str], str]]] = {}
 
     # -- generic execution -------------------------------------------------
@@ -515,10 +580,17 @@ class Harness:
         return Outcome("ok", out=out)
 
     # -- strings -------------------------------------------------------------
-    def build_string_case(self, site: Site, pieces: list[Piece], quote: str):
+    def build_string_case(self, site: Site, pieces: list[Piece], quote: str,
+                          interp: str | None = None):
         pieces = normalise(pieces, no_raw_newline=site.liquid)
         s = "".join(c for c, _ in pieces)
         body = body_of(pieces)
+        if interp:
+            # the literal becomes a template string: `${x}` (x = 'X') at the start, in the
+            # middle or at the end of the body; the string it denotes gains an X there
+            k = {"start": 0, "middle": len(pieces) // 2, "end": len(pieces)}[interp]
+            body = body_of(pieces[:k]) + "${x}" + body_of(pieces[k:])
+            s = s[:k] + "X" + s[k:]
         lit = quote + body + quote
         lit2 = partner_literal(s, quote)
         src = fill(site.src, lit, lit2, body, quote)
@@ -539,12 +611,14 @@ class Harness:
         return pieces, s, body, lit, src, tpls, data
 
     def eval_string(self, site: Site, pieces: list[Piece], quote: str,
-                    *, use_async: bool = False) -> tuple[Outcome, dict[str, Any]]:
-        pieces, s, body, lit, src, tpls, data = self.build_string_case(site, pieces, quote)
+                    *, use_async: bool = False,
+                    interp: str | None = None) -> tuple[Outcome, dict[str, Any]]:
+        pieces, s, body, lit, src, tpls, data = self.build_string_case(site, pieces, quote,
+                                                                       interp)
         o = self.render(src, tpls, data, use_async=use_async,
                         env=self.env_ae if site.ae else self.env)
         info = {"s": s, "body": body, "lit": lit, "src": src, "tpls": dict(tpls),
-                "pieces": pieces}
+                "pieces": pieces, "interp": interp}
         # the value the engine derived from the literal, when a probe saw it
         probed: Any = None
         if site.probe == "loader":
@@ -573,27 +647,87 @@ class Harness:
             o = Outcome("wrong", observed=probed, detail=o.kind + " " + o.detail)
         return o, info
 
-    def check_string(self, site: Site, pieces: list[Piece], quote: str) -> None:
+    INTERP_POSITIONS = ("start", "middle", "end")
+
+    def check_string(self, site: Site, pieces: list[Piece], quote: str,
+                     interp: str | None = None) -> None:
         ctx = self.ctx
         if site.nonempty and not pieces:
             return
+        if interp and not site.tstring:
+            return
         self.n += 1
         use_async = self.n % 7 == 0
-        o, info = self.eval_string(site, pieces, quote, use_async=use_async)
+        if interp is None:
+            n = self.site_n[site.name] = self.site_n.get(site.name, 0) + 1
+        else:
+            n = 0
+        o, info = self.eval_string(site, pieces, quote, use_async=use_async, interp=interp)
         ctx.ev()
         ctx.count("string_evaluations")
         ctx.seen("sites", site.name)
-        if needs_or_has_escape(info["pieces"]):
+        if interp:
+            ctx.count("tstring_evaluations")
+        if interp or needs_or_has_escape(info["pieces"]):
             mark_nontrivial(ctx, "s", site.name, info["lit"])
         if self.n % 9973 == 1:
             ctx.sample({"kind": "string", "site": site.name, "source": info["src"],
                         "expected": info["s"]})
         if o.kind == "ok":
+            if interp:
+                ctx.seen("tstring_accepting", f"{site.name}:{'dq' if quote == '"' else 'sq'}")
+        elif interp and (o.kind == "rejected" or o.kind.startswith("liquid-error:")):
+            self.report_tstring_refused(site, info["pieces"], quote, interp, o, info, use_async)
+        else:
+            self.report_string(site, info["pieces"], quote, o, info, use_async, interp)
+        # every third plain evaluation at a site is repeated with the literal turned into a template
+        # string (interpolation position rotates)
+        if interp is None and site.tstring and n % 3 == 0:
+            self.check_string(site, pieces, quote, self.INTERP_POSITIONS[(n // 3) % 3])
+
+    def report_tstring_refused(self, site: Site, pieces: list[Piece], quote: str, interp: str,
+                               o: Outcome, info: dict[str, Any], use_async: bool) -> None:
+        """A template string was refused.  Some positions take plain strings only (names,
+        aliases), which is documented; what must hold is that both quote styles of the same
+        text are treated alike."""
+        q2 = '"' if quote == "'" else "'"
+        other: list[Piece] = []
+        for ch, mode in pieces:
+            if mode == "q":
+                other.append((ch, "raw"))
+            elif ch == q2 and mode == "raw":
+                other.append((ch, "q"))
+            else:
+                other.append((ch, mode))
+        o2, info2 = self.eval_string(site, other, q2, use_async=use_async, interp=interp)
+        if o2.kind == o.kind:
+            self.ctx.count("tstring_refused_in_both_quote_styles")
+            self.ctx.seen("tstring_refusing_sites", site.name)
             return
-        self.report_string(site, info["pieces"], quote, o, info, use_async)
+        # smallest witness: the bare `${x}` if it shows the same asymmetry
+        if pieces and not site.nonempty:
+            o3, info3 = self.eval_string(site, [], quote, use_async=use_async, interp=interp)
+            o4, info4 = self.eval_string(site, [], q2, use_async=use_async, interp=interp)
+            if o3.kind == o.kind and o4.kind == o2.kind:
+                pieces, o, info, o2, info2 = [], o3, info3, o4, info4
+        style = "double-quoted" if quote == '"' else "single-quoted"
+        what_kind = "rejected" if o.kind == "rejected" else o.kind
+        key = f"{site.name}:template-string-{what_kind}:{style}"
+        self.ctx.violation(
+            key,
+            f"site {site.name}: template string {info['lit']} -> {o.kind} {o.detail}; the same "
+            f"text written {info2['lit']} -> {o2.kind} {o2.out!r}",
+            {"kind": "string", "site": site.name, "quote": quote, "interp": interp,
+             "pieces": [[c, m] for c, m in pieces], "literal": info["lit"],
+             "expected": info["s"], "source": info["src"], "templates": info["tpls"],
+             "outcome": o.kind, "detail": o.detail, "other_style_literal": info2["lit"],
+             "other_style_outcome": o2.kind, "async": use_async})
 
     def _string_key(self, site: Site, pieces: list[Piece], o: Outcome, info: dict[str, Any]) -> str:
-        feats = "+".join(sorted({feature(c, m) for c, m in pieces})) or "empty"
+        fs = {feature(c, m) for c, m in pieces}
+        if info.get("interp"):
+            fs.add("template-string")
+        feats = "+".join(sorted(fs)) or "empty"
         if o.kind == "wrong":
             if isinstance(o.observed, str) and o.observed == info["body"] and info["body"] != info["s"]:
                 return f"{site.name}:not-unescaped"
@@ -603,12 +737,12 @@ class Harness:
         return f"{site.name}:{o.kind}:{feats}"
 
     def report_string(self, site: Site, pieces: list[Piece], quote: str, o: Outcome,
-                      info: dict[str, Any], use_async: bool) -> None:
+                      info: dict[str, Any], use_async: bool, interp: str | None = None) -> None:
         kind = o.kind
         orig_lit = info["lit"]
         # a failure already explained by a recorded minimal witness of the same site and
         # outcome (its spelling features are all present here) is only counted
-        feats = frozenset(feature(c, m) for c, m in pieces)
+        feats = frozenset(feature(c, m) for c, m in pieces) | ({"template-string"} if interp else set())
         raw_here = (kind == "wrong" and isinstance(o.observed, str)
                     and o.observed == info["body"] and info["body"] != info["s"])
         for fs, k in self.explained.get((site.name, kind), ()):
@@ -617,7 +751,7 @@ class Harness:
                 return
 
         def still(cand: list[Piece]) -> bool:
-            o2, _ = self.eval_string(site, cand, quote, use_async=use_async)
+            o2, _ = self.eval_string(site, cand, quote, use_async=use_async, interp=interp)
             return o2.kind == kind
 
         small = pieces
@@ -626,7 +760,7 @@ class Harness:
                 small = ddmin(pieces, still, max_calls=120)
             except Exception:  # noqa: BLE001
                 small = pieces
-        o2, info2 = self.eval_string(site, small, quote, use_async=use_async)
+        o2, info2 = self.eval_string(site, small, quote, use_async=use_async, interp=interp)
         if o2.kind != kind:  # should not happen; fall back to the original
             o2, info2, small = o, info, pieces
         key = self._string_key(site, info2["pieces"], o2, info2)
@@ -636,9 +770,10 @@ class Harness:
                else f"{o2.kind} {o2.detail}")
         )
         self.explained.setdefault((site.name, kind), []).append(
-            (frozenset(feature(c, m) for c, m in info2["pieces"]), key))
+            (frozenset(feature(c, m) for c, m in info2["pieces"])
+             | ({"template-string"} if interp else set()), key))
         self.ctx.violation(key, what, {
-            "kind": "string", "site": site.name, "quote": quote,
+            "kind": "string", "site": site.name, "quote": quote, "interp": interp,
             "pieces": [[c, m] for c, m in info2["pieces"]],
             "literal": info2["lit"], "expected": info2["s"], "source": info2["src"],
             "templates": info2["tpls"], "observed": _jsonable(o2.observed),
@@ -1470,6 +1605,30 @@ def _for_args(h: Harness, rng: random.Random) -> None:
                             sp[i] = (s[i], m)
                             spellings.append(sp)
                     spellings += [random_pieces(s, quote, rng) for _ in range(6)]
+                # the same string as a template string (`${p}` supplies its tail): both quote
+                # styles must be treated alike, and like the plain string when accepted
+                if quote == "'":
+                    tmpl = FOR_ARG_SITES[name][0]
+                    for k in range(len(s)):
+                        outs = []
+                        for q in QUOTES:
+                            lit_t = q + s[:k] + "${p}" + q
+                            data = {"xs": [1, 2, 3, 4, 5, 6], "g": 1, "p": s[k:]}
+                            ot = h.render(tmpl.replace("«L»", lit_t), {}, data)
+                            outs.append((ot.kind, ot.out, lit_t))
+                            ctx.ev()
+                            ctx.count("string_evaluations")
+                            ctx.count("for_arg_evaluations")
+                        ref = h.render(tmpl.replace("«L»", "'" + s + "'"), {},
+                                       {"xs": [1, 2, 3, 4, 5, 6], "g": 1})
+                        bad = outs[0][:2] != outs[1][:2] or any(
+                            kd == "ok" and out != ref.out for kd, out, _l in outs)
+                        if bad:
+                            ctx.violation(
+                                f"{name}:template-string",
+                                f"site {name}: {outs[0][2]} -> {outs[0][:2]}, {outs[1][2]} -> "
+                                f"{outs[1][:2]}, plain '{s}' -> {(ref.kind, ref.out)} (p={s[k:]!r})",
+                                {"kind": "for-arg-tstring", "site": name, "s": s, "k": k})
                 for sp in spellings:
                     same, o, ref, lit, ref_lit = eval_for_arg(h, name, sp, quote)
                     ctx.ev()
@@ -1565,6 +1724,10 @@ def floors(tier: str) -> dict[str, int]:
         "long_mantissa_literals": 2_000 if q else 20_000,
         "max:mantissa_digits": 60,
         "for_arg_evaluations": 100,
+        "tstring_evaluations": 250_000 if q else 2_000_000,
+        # (site, quote style) pairs at which a template string was accepted and denoted the
+        # right string; fewer means some position stopped taking template strings at all
+        "set:tstring_accepting": 150,
         "limit_probes_within": 250,
         "limit_probes_refused_with_LiquidError": 300,
     }
@@ -1627,15 +1790,22 @@ def replay(wit: dict[str, Any], ctx: Ctx) -> None:
     if kind == "string":
         site = SITE[wit["site"]]
         pieces = [(c, m) for c, m in wit["pieces"]]
-        o, info = h.eval_string(site, pieces, wit["quote"], use_async=bool(wit.get("async")))
-        print(f"replay C20 string site={site.name}")
+        interp = wit.get("interp")
+        o, info = h.eval_string(site, pieces, wit["quote"], use_async=bool(wit.get("async")),
+                                interp=interp)
+        print(f"replay C20 string site={site.name} interpolation={interp}")
         print(f"  source    : {info['src']!r}")
         if info["tpls"]:
             print(f"  templates : {info['tpls']!r}")
         print(f"  literal   : {info['lit']}   denotes {info['s']!r}")
         print(f"  outcome   : {o.kind} observed={o.observed!r} output={o.out!r} {o.detail}")
         if o.kind != "ok":
-            h.report_string(site, info["pieces"], wit["quote"], o, info, bool(wit.get("async")))
+            if interp and (o.kind == "rejected" or o.kind.startswith("liquid-error:")):
+                h.report_tstring_refused(site, info["pieces"], wit["quote"], interp, o, info,
+                                         bool(wit.get("async")))
+            else:
+                h.report_string(site, info["pieces"], wit["quote"], o, info,
+                                bool(wit.get("async")), interp)
     elif kind == "number":
         site_n = NUMSITE[wit["site"]]
         o, info = eval_number(h, site_n, wit["text"], use_async=bool(wit.get("async")))
